@@ -10,6 +10,8 @@
      -> <id> S=<server_process fp> F=<client_finish reply> RP=<model reply == reply> PL=<model client
         payload == fields of fp> PT=<pack> W=<wf_client_hello name fp>
    <id> FP <tls|ws> <spv> <snow> <fp>   forged first packet -> <id> S=<server_process fp> (Gallina X25519)
+   <id> MS <sid:fresh,..>         connections of one user in arrival order (session id, fresh key drawn)
+                                  -> <id> keys=<key carried by each reply> table=<sid:key of the session table afterwards>
    <id> D <plaintext> <snow>      -> <id> S=<unpack>
    <id> X <scalar> <u>            -> <id> <x25519 scalar u> (Gallina ladder) *)
 let z_of_hex s =
@@ -86,6 +88,15 @@ let () = iter_lines (fun line ->
     let s = match (if tr = "tls" then x_server_process_tls dh_x25519 fp spv snow else x_server_process_ws dh_x25519 fp spv snow) with
       | Accept (i, _, _) -> show_info i | Reject r -> "R:" ^ show_rej r | SPanic -> "P" in
     Printf.printf "%s S=%s\n" id s
+  | [id; "MS"; conns] ->
+    (* connections of one user in arrival order, sid:fresh-key ; the key each reply carries and the table afterwards *)
+    let cs = List.map (fun e -> match split_on ':' e with
+      | [sid; fresh] -> (n_of_hex sid, bytes_of_hex fresh) | _ -> failwith "bad MS") (split_on ',' conns) in
+    let keys = serve_keys [] cs and tbl = table_after [] cs in
+    Printf.printf "%s keys=%s table=%s\n" id (String.concat "," (List.map hex_of_bytes keys))
+      (String.concat "," (List.map (fun (sid, _) -> match tbl_get sid tbl with
+         | Some k -> hex_of_n sid ^ ":" ^ hex_of_bytes k | None -> hex_of_n sid ^ ":none")
+         (List.sort_uniq compare (List.map (fun (s, _) -> (s, ())) cs))))
   | [id; "D"; pt; snow] ->
     let s = match unpack (bytes_of_hex pt) (z_of_hex snow) with
       | UOk i -> show_info i | UWindow _ -> "R:window" | UPanic -> "P" in
